@@ -535,7 +535,17 @@ def _signature(spec, key, subgraph_index):
   return sd
 
 
-def build_bytes(spec: Spec, empty_buffer=None) -> bytearray:
+def _add_metadata_buffers(m):
+  out = []
+  for payload in (b'1.5.0' + b'\0' * 11, bytes(range(1, 41))):
+    b = sch.BufferT()
+    b.data = np.frombuffer(payload, dtype=np.uint8)
+    m.buffers.append(b)
+    out.append(len(m.buffers) - 1)
+  return out
+
+
+def build_bytes(spec: Spec, empty_buffer=None, metadata=None) -> bytearray:
   """empty_buffer: None | 'tensor' (an unused zero-element int32 constant whose buffer carries a
   present-but-empty data vector) | 'orphan' (such a buffer referenced by no tensor). Both are
   legal TFLite; the TF converter normally omits the data field instead."""
@@ -544,7 +554,19 @@ def build_bytes(spec: Spec, empty_buffer=None) -> bytearray:
   m.description = 'aeq-sim generated'
   m.buffers = [sch.BufferT()]
   codes, code_idx = [], {}
+  meta_bufs = []
+  if metadata == 'first':
+    meta_bufs = _add_metadata_buffers(m)       # metadata buffers BEFORE the tensor buffers
   sg = _add_subgraph(m, codes, code_idx, spec, 'main')
+  if metadata == 'last':
+    meta_bufs = _add_metadata_buffers(m)       # where the TF converter puts them
+  if meta_bufs:
+    m.metadata = []
+    for name, idx in zip(('min_runtime_version', 'CONVERSION_METADATA'), meta_bufs):
+      md = sch.MetadataT()
+      md.name = name.encode()
+      md.buffer = idx
+      m.metadata.append(md)
   if empty_buffer:
     eb = sch.BufferT()
     eb.data = np.array([], dtype=np.uint8)
@@ -678,7 +700,7 @@ def get_model(desc):
     return spec, bytearray(b)
   if desc['kind'] == 'gen':
     spec = _Gen(desc['seed'], desc.get('max_ops', 6), desc.get('bias')).run()
-    b = build_bytes(spec, desc.get('empty_buffer'))
+    b = build_bytes(spec, desc.get('empty_buffer'), desc.get('metadata'))
   elif desc['kind'] == 'gen2':
     specs = []
     for k in range(2):
